@@ -156,6 +156,12 @@ pub fn new_emu(m128: bool, tape: &[u8], fastload: bool) -> Emu {
     if m128 {
         // page the 48K BASIC ROM (ROM 1) in, as the 128K does when it enters 48K BASIC/tape loader
         e.verif_write_io(0x7FFD, 0x10);
+        if tape.len() % 2 == 1 {
+            // … and, on every other tape, as a program that has locked itself into 48K mode does: the lock bit set,
+            // then a further write (other bank, ROM bit clear) that the locked latch ignores
+            e.verif_write_io(0x7FFD, 0x30);
+            e.verif_write_io(0x7FFD, 0x07);
+        }
     }
     let mut d = Dbg::default();
     d.bps.insert(RET_ADDR);
